@@ -209,7 +209,26 @@ func (w *world) dump() string {
 		bal := app.BankKeeper.GetBalance(ctx, a, fxtypes.DefaultDenom).Amount
 		gs = append(gs, bal.Sub(w.bal0[i]).Add(w.spent[i]).String())
 	}
-	fmt.Fprintf(&sb, " A(%s) G(%s)", strings.Join(al, ","), strings.Join(gs, ","))
+	// unbonding-delegation and redelegation entries (number of entries per key; the refusal of a transfer depends on
+	// the incoming redelegations, the SDK's max-entries refusals on both)
+	var us, rds []string
+	for vi, v := range w.vals {
+		for d, a := range w.accs {
+			if u, err := app.StakingKeeper.GetUnbondingDelegation(ctx, a, v); err == nil && len(u.Entries) > 0 {
+				us = append(us, fmt.Sprintf("%d:%d:%d", d, vi, len(u.Entries)))
+			}
+		}
+	}
+	for si, src := range w.vals {
+		for di, dst := range w.vals {
+			for d, a := range w.accs {
+				if r, err := app.StakingKeeper.GetRedelegation(ctx, a, src, dst); err == nil && len(r.Entries) > 0 {
+					rds = append(rds, fmt.Sprintf("%d:%d:%d:%d", d, si, di, len(r.Entries)))
+				}
+			}
+		}
+	}
+	fmt.Fprintf(&sb, " A(%s) G(%s) U(%s) Rd(%s)", strings.Join(al, ","), strings.Join(gs, ","), strings.Join(us, ","), strings.Join(rds, ","))
 	return sb.String()
 }
 
